@@ -605,4 +605,103 @@ theorem evalPrint_sim_step {σ : Sh} {fuel : Nat} (ih : SimSpec σ fuel) : ∀ t
         rintro piece _ s3 t3 hR3 rfl
         exact ih.evalPrint _ _ _ _ _ _ hR3
 
+theorem evalDelete_sim_step {σ : Sh} {fuel : Nat} (ih : SimSpec σ fuel) : ∀ node s t, StR σ s t →
+    SimAt σ (evalDelete (fuel + 1) node) (evalDelete (fuel + 1) node) s t (QO σ) := by
+  intro node s t hR
+  unfold Grol.E.evalDelete
+  refine sim_curEnv_bind hR ?_
+  refine SimAt.bind (sim_triggerNoCache hR t.cur) ?_
+  intro _ _ s1 t1 hR1 _
+  split
+  · refine SimAt.ite (fun _ => SimAt.pure hR1 rfl) (fun _ => ?_)
+    extract_lets jp
+    have hjp : ∀ s2 t2, StR σ s2 t2 → SimAt σ (jp ()) (jp ()) s2 t2 (QO σ) := by
+      intro s2 t2 hR2
+      unfold jp
+      refine sim_curEnv_bind hR2 ?_
+      exact sim_envDelete hR2 t2.cur _
+    refine SimAt.ite (fun _ => ?_) (fun _ => hjp s1 t1 hR1)
+    refine SimAt.bind (Q := fun _ _ => True) (SimAt.modify hR1.clearCache) ?_
+    intro _ _ s2 t2 hR2 _
+    exact hjp s2 t2 hR2
+  · refine SimAt.ite (fun _ => SimAt.pure hR1 rfl) (fun _ => ?_)
+    exact sim_deleteMapEntry hR1 _ (.str _)
+  · refine SimAt.bind (ih.eval _ _ _ hR1) ?_
+    rintro _ index s2 t2 hR2 rfl
+    rw [ren_isError]
+    exact SimAt.ite (fun _ => SimAt.pure hR2 rfl) (fun _ => sim_deleteMapEntry hR2 _ index)
+  · exact SimAt.pure hR1 rfl
+
+theorem evalIndexExpression_sim_step {σ : Sh} {fuel : Nat} (ih : SimSpec σ fuel) : ∀ left tok i s t, StR σ s t →
+    SimAt σ (evalIndexExpression (fuel + 1) (ren σ left) tok i) (evalIndexExpression (fuel + 1) left tok i) s t
+      (QO σ) := by
+  intro left tok i s t hR
+  unfold Grol.E.evalIndexExpression
+  rw [ren_isError]
+  refine SimAt.ite (fun _ => SimAt.pure hR rfl) (fun _ => ?_)
+  refine SimAt.ite (fun _ => ?_) (fun _ => ?_)
+  · refine SimAt.ite (fun _ => SimAt.pure hR rfl) (fun _ => ?_)
+    exact sim_indexIdx hR left (.str _)
+  · split
+    · exact ih.evalIndexRange _ _ _ _ _ hR
+    · refine SimAt.bind (ih.eval _ _ _ hR) ?_
+      rintro _ index s1 t1 hR1 rfl
+      rw [ren_isError]
+      exact SimAt.ite (fun _ => SimAt.pure hR1 rfl) (fun _ => sim_indexIdx hR1 left index)
+
+/-- the slicing part of `evalIndexRangeExpression` -/
+theorem rangeBody_ren {σ : Sh} {s t : St} (hR : StR σ s t) (left : Obj) (l r : Int) :
+    SimAt σ
+      (match ren σ left with
+      | .str x => pure (.str ((x.drop l.toNat).take (r - l).toNat))
+      | .array els => pure (newArray ((els.drop l.toNat).take (r - l).toNat))
+      | .map big kvs => do
+        let __do_lift ← get
+        pure (.map (big && decide ((r - l).toNat > __do_lift.cfg.maxSmallMap)) ((kvs.drop l.toNat).take (r - l).toNat))
+      | .null => pure .null
+      | _ => pure (err "range index operator not supported"))
+      (match left with
+      | .str x => pure (.str ((x.drop l.toNat).take (r - l).toNat))
+      | .array els => pure (newArray ((els.drop l.toNat).take (r - l).toNat))
+      | .map big kvs => do
+        let __do_lift ← get
+        pure (.map (big && decide ((r - l).toNat > __do_lift.cfg.maxSmallMap)) ((kvs.drop l.toNat).take (r - l).toNat))
+      | .null => pure .null
+      | _ => pure (err "range index operator not supported")) s t (QO σ) := by
+  cases left with
+  | array els =>
+    refine SimAt.pure hR ?_
+    simp only [QO, newArray, ren, renL_take, renL_drop]
+  | map big kvs =>
+    simp only [ren]
+    refine SimAt.bind_read (runM_get s) (runM_get t) ?_
+    rw [hR.cfg]
+    refine SimAt.pure hR ?_
+    simp only [QO, ren, renP_take, renP_drop]
+  | _ => all_goals exact SimAt.pure hR rfl
+
+theorem evalIndexRange_sim_step {σ : Sh} {fuel : Nat} (ih : SimSpec σ fuel) : ∀ left li ri s t, StR σ s t →
+    SimAt σ (evalIndexRange (fuel + 1) (ren σ left) li ri) (evalIndexRange (fuel + 1) left li ri) s t (QO σ) := by
+  intro left li ri s t hR
+  unfold Grol.E.evalIndexRange
+  refine SimAt.bind (ih.eval _ _ _ hR) ?_
+  rintro _ leftIndex s0 t0 hR0 rfl
+  rw [objLen_ren, int64Value_ren]
+  extract_lets nilRight num jpS jpT
+  have hjp : ∀ (rv : Obj) s1 t1, StR σ s1 t1 → SimAt σ (jpS (ren σ rv)) (jpT rv) s1 t1 (QO σ) := by
+    intro rv s1 t1 hR1
+    unfold jpS jpT
+    rw [int64Value_ren]
+    split
+    · dsimp only
+      refine SimAt.ite (fun _ => SimAt.pure hR1 rfl) (fun _ => ?_)
+      exact rangeBody_ren hR1 left _ _
+    · exact SimAt.pure hR1 rfl
+  refine SimAt.ite (fun _ => ?_) (fun _ => ?_)
+  · refine SimAt.bind_read (runM_pure _ s0) (runM_pure _ t0) ?_
+    exact hjp .null s0 t0 hR0
+  · refine SimAt.bind (ih.eval _ _ _ hR0) ?_
+    rintro _ rv s1 t1 hR1 rfl
+    exact hjp rv s1 t1 hR1
+
 end Grol.R
